@@ -2,6 +2,7 @@ package main
 
 import (
 	"fmt"
+	"os"
 	"sort"
 	"strings"
 
@@ -106,8 +107,11 @@ func idxWitnesses() []*Program {
 		}}
 	}
 	return []*Program{
-		dropCol([]IdxDef{{Name: "i12", Cols: []int{1, 2}, Pfx: []int{0, 0}}, {Name: "u2", Cols: []int{2}, Pfx: []int{0}, Unique: true}}, "c0"),
+		// (with an additional UNIQUE index on c2 this shape makes the UNCHANGED dolt panic in dolt_merge — reported,
+		// replay in design/C25-unique-rightdelete-dropcolumn-panic.json, not registered until the coordinator decides)
+		dropCol([]IdxDef{{Name: "i12", Cols: []int{1, 2}, Pfx: []int{0, 0}}}, "c0"),
 		dropCol([]IdxDef{{Name: "i2", Cols: []int{2}, Pfx: []int{0}}}, "c1"),
+		dropCol([]IdxDef{{Name: "i1", Cols: []int{1}, Pfx: []int{0}}}, "c0"),
 		{Mode: "idx", NSess: 2,
 		Schema: &SchemaCase{Initial: []IdxDef{{Name: "u01", Cols: []int{0, 1}, Pfx: []int{0, 0}, Unique: true}, {Name: "u2", Cols: []int{2}, Pfx: []int{0}, Unique: true}}},
 		Stmts: []XStmt{
@@ -326,6 +330,13 @@ func (h *H) runIdx(p *Program) {
 		res := ss[st.S].Exec(st.SQL)
 		class := res.Class()
 		rep.Hit("idx:class:" + class)
+		if prop == "C25" && res.Err != nil && strings.Contains(strings.ToLower(res.Err.Error()), "panic") {
+			// maintaining the indexes through a merge / DML must never end in an internal panic
+			rep.Violate("C25:statement-panicked:"+strings.ToLower(strings.Fields(st.SQL)[0]), fmt.Sprintf("stmt %d (%s) failed with an internal panic: %.300v", idx, st.SQL, res.Err), p)
+		}
+		if os.Getenv("IDXDEBUG") != "" {
+			fmt.Fprintf(os.Stderr, "DBG stmt %d s%d %q class=%s rows=%v err=%v\n", idx, st.S, st.SQL, class, res.Lines(), res.Err)
+		}
 		fl := append(strings.Fields(st.SQL), "")
 		kw := strings.ToLower(strings.TrimSpace(fl[0] + " " + fl[1]))
 		if strings.HasPrefix(kw, "call") {
